@@ -1,3 +1,4 @@
+import Labella.Model.Pipeline
 import Labella.Model.Render
 import Labella.Proofs.Rounding
 import Labella.Proofs.RenderLemmas
@@ -6,6 +7,7 @@ import Mathlib.Tactic.Ring
 import Mathlib.Tactic.Linarith
 import Mathlib.Tactic.NormNum
 import Labella.Props.C15
+import Labella.Proofs.PipelineLemmas
 /-! # C07 — every datum is drawn once, at its true time, linked to its own label
 
 `o` = renderer options (direction, node height = thickest label, layer gap); `n` = a label node after layout.
@@ -136,5 +138,53 @@ theorem time_dots_affine (d0 d1 : Int) (L : ℚ) (h : d0 ≠ d1) (t : Int) :
 /-- a degenerate domain places every dot at the start of the axis -/
 theorem degenerate_dots_at_start (d L t : ℚ) : Scale.apply false d d 0 L t = 0 :=
   C12.degenerate false d 0 L t
+
+/-! ### end to end: `Timeline.compute` + the emitters, composed (`Model/Pipeline.lean`) -/
+section EndToEnd
+open Labella.Pipeline Labella.Layout
+
+/-- **C07 (boxes and links) end to end.**  For EVERY list of data, direction, engine configuration and layer gap ≥ 0 (for direction `up`:
+labels of one common thickness, which `Timeline.equal_heights` establishes): every datum is drawn exactly once; its box has the datum's
+padded size; its link starts at the datum's own dot on the axis, has exactly one curve per layer up to the label's, passes — layer by
+layer — through the reported position of the datum's own stub in that layer, and ends within 1 unit (origin truncation) of the middle of
+the axis-facing edge of the datum's own box. -/
+theorem pipeline_links (dir : Dir) (layerGap : ℚ) (fo : FOpts) (items : List PItem)
+    (hlg : 0 ≤ layerGap) (hsz : ∀ it ∈ items, 0 ≤ it.w ∧ 0 ≤ it.h)
+    (hup : dir = .up → ∀ it ∈ items, it.h = nodeHeight dir items) :
+    ((drawn dir layerGap fo items).map (·.id)).Perm (List.range items.length) ∧
+    ∀ a ∈ drawn dir layerGap fo items,
+      a.id < items.length ∧
+      a.box.w = (items.getD a.id default).w ∧ a.box.h = (items.getD a.id default).h ∧
+      (pathSteps (ropt dir layerGap items) a.node).head? =
+        some (Step.M (if dir.horizontalAxis then ((items.getD a.id default).ideal, 0) else (0, (items.getD a.id default).ideal))) ∧
+      ((pathSteps (ropt dir layerGap items) a.node).filter (fun s => match s with | .C _ _ _ => true | _ => false)).length = a.layer + 1 ∧
+      (∀ j, j < a.layer → ∃ p ∈ (Layout.compute fo (labelsOf dir items)).getD j [],
+          p.ref.id = a.id ∧ p.ref.isStub = true ∧ a.node.hops.getD j 0 = (p.pos : ℚ)) ∧
+      a.node.hops.getD a.layer 0 = a.node.cur ∧ a.node.hops.length = a.layer + 1 ∧
+      linkEndsB dir 0 1 (items.getD a.id default).ideal (pathSteps (ropt dir layerGap items) a.node) a.box = true := by
+  refine ⟨drawn_ids_perm dir layerGap fo items, fun a ha => ?_⟩
+  obtain ⟨hlt, hlay, hw, hh, hwid, hideal, hbox⟩ := drawn_node dir layerGap fo items a ha
+  obtain ⟨hlen, hcur, hlast, hstubs⟩ := drawn_links dir layerGap fo items a ha
+  have hmem := getD_mem items a.id default hlt
+  have hwb : WellBuilt (ropt dir layerGap items) a.node := by
+    refine ⟨by rw [hlen, hlay], hlast, ?_, ?_⟩
+    · change if dir.horizontalAxis then a.node.width = a.node.w else a.node.width = a.node.h
+      rw [hwid, hw, hh]; unfold along; split <;> rfl
+    · intro hd
+      change a.node.h = nodeHeight dir items
+      rw [hh]
+      exact hup hd _ hmem
+  have hnh : 0 ≤ (ropt dir layerGap items).nodeHeight := nodeHeight_nonneg dir items
+  have h1 := link_starts_at_dot (ropt dir layerGap items) a.node hwb
+  have h2 := link_one_curve_per_layer (ropt dir layerGap items) a.node hwb
+  have h3 := link_ends_at_box (ropt dir layerGap items) a.node hwb hnh hlg
+  rw [hideal] at h1 h3
+  rw [hlay] at h2
+  rw [← hbox] at h3
+  refine ⟨hlt, ?_, ?_, h1, h2, hstubs, hcur, hlen, h3⟩
+  · rw [hbox, ← hw]; rfl
+  · rw [hbox, ← hh]; rfl
+
+end EndToEnd
 
 end Labella.C07
